@@ -11,9 +11,9 @@
 (*   the links driven entirely fit into the step, nothing is entered once  *)
 (*   the time is used up, and a non-degenerate route makes progress.       *)
 (***************************************************************************)
-EXTENDS Naturals, Sequences, FiniteSets, TLC
+EXTENDS Naturals, Sequences, FiniteSets, TLC, Json
 
-CONSTANTS MaxLen, MaxTT, MaxDt
+CONSTANTS MaxLen, MaxTT, MaxDt, Export
 VARIABLES route, dt
 vars == <<route, dt>>
 
@@ -60,4 +60,7 @@ TraverseOK ==
   /\ \A i \in DOMAIN R.rem : R.rem[i][2] = "whole" => ~\E j \in DOMAIN R.exp : R.exp[j][1] > R.rem[i][1]
   \* progress: a route with a non-degenerate first link to drive is never left untouched
   /\ (NonDeg(route) # <<>>) => R.exp # <<>>
+\* with Export = TRUE every (route, step length) is printed with the model's result, to be executed in the real traverse()
+Exported ==
+  ~Export \/ PrintT(<<"TRAV", ToJson([r |-> route, d |-> dt, exp |-> Traverse(route, dt).exp, rem |-> Traverse(route, dt).rem])>>)
 =============================================================================
